@@ -23,9 +23,10 @@ partial def loop (h : IO.FS.Stream) (n bad : Nat) : IO (Nat × Nat) := do
   if line.isEmpty then return (n, bad)
   match (line.dropEnd 1).toString.splitOn "\t" with
   | [f, res, dt, file, ran] =>
-    if f == "RunExit1" then
-      -- remote exit code 1 through the pinned mapping: no exit code, i.e. "killed by signal 1"
-      let ok := res == "CompileFailed code=None" && codeOfRaw (ofRemotePinned 1) == none && file == "absent" && ran == "0"
+    if f.startsWith "RunExit" then
+      -- a remote compile that fails with exit code c comes back as that exit code (mapping after the fix of F-C13-a)
+      let c := (f.drop 7).toString.toNat!
+      let ok := res == s!"CompileFailed code=Some({c})" && codeOfRaw (ofRemoteFixed c) == some c && file == "absent" && ran == "0"
       if ok then loop h (n + 1) bad else do IO.println s!"MISMATCH {f}: {res}"; loop h (n + 1) (bad + 1)
     else match caseOf f with
     | none => IO.println s!"unknown case {f}"; loop h (n + 1) (bad + 1)
